@@ -204,6 +204,7 @@ func cmdCheck(args []string) int {
 	rep.Stats = stats
 	rep.TimeoutMs = ms
 	rep.Level = *level
+	rep.Filtered = len(pats) > 0
 	rep.WallSec = time.Since(t0).Seconds()
 	rep.print(*verbose)
 	code := rep.finish(*evidence, *known, *replays, want)
